@@ -777,6 +777,8 @@ pub fn const_shapes() -> Vec<String> {
         cur = next;
     }
     shapes.extend(["[]".to_string(), "{}".to_string(), "[[], {}]".to_string(), "{a: [], b: {}}".to_string()]);
+    // parentheses only group: a parenthesised constant is that constant — inside lists and maps too
+    shapes.extend(["(i5)".to_string(), "((\"s\"))".to_string(), "[(i1), [i2], {k: ((i3))}]".to_string(), "{a: (none)}".to_string(), "([])".to_string(), "({})".to_string()]);
     shapes
 }
 
@@ -1071,6 +1073,19 @@ pub fn run_c07(rep: &mut Report, driver: &str, workers: usize, thorough: bool, s
     let mut rng = Rng::new(seed);
     let run = run_texts(prec_stream(), false, driver, workers);
     judge_texts("C07", "precedence", "`a op1 b op2 c` (bare, left- and right-parenthesised, with postfix steps) for every ordered pair of the 19 binary operator tokens; unary x binary combinations; if in operand positions; calls / lists / maps as operands; synonym spellings; chaining / non-chaining of contains, index forms, trailing commas, keyword-vs-call forms — accept/reject and tree compared with the reference parser", true, &run, "full", rep);
+    {
+        // comments and line ends between the tokens of an expression do not take part in its structure
+        let mut r3 = Rng::new(seed ^ 0x77);
+        let mut ctexts = vec![];
+        for (toks, _) in layout_stream(&mut r3, false).iter().take(14) {
+            for g in GAPS.iter().filter(|g| g.contains("//") || g.contains('\n')) {
+                ctexts.push(TextCase { text: toks.join(g), tag: "comments-between-tokens" });
+                ctexts.push(TextCase { text: format!("{}{}{}", g, toks.join(" "), g), tag: "comments-between-tokens" });
+            }
+        }
+        let run = run_texts(ctexts, false, driver, workers);
+        judge_texts("C07", "comments-between-tokens", "14 token sequences with every comment / line-end gap shape (comments ended by \\n, \\r, \\r\\n; comments whose text looks like other syntax: `/*`, `*/`, closing brackets, `---`, `@k: i1;`, a trailing backslash) at every boundary and around the whole text: the tree is the one of the comment-free text", true, &run, "full", rep);
+    }
     let mut seqs = toks_stream(thorough);
     seqs.extend(brackets_stream(thorough));
     let run = run_texts(seqs, false, driver, workers);
@@ -1232,6 +1247,9 @@ fn rule_vs_expr(prop: &str, rep: &mut Report, workers: usize, thorough: bool, se
     for t in ["x * i1", "i1 * x", "x + i0", "x - i0", "x / i1", "x == none", "f(x) != none", "none == x", "if c then true else false", "--x", "!!x", "\"a\rb\"", "\"a\r\nb\"", "a and true", "false or a", "[x * i1, {k: x + i0}]",
         "\"line 1\r\nline 2\"", "\"a\nb\"", "\"a\tb\"", "\"a\u{85}b\"", "\"a\u{2028}b\"", "\"\r\"", "\"\r\n\"", "\"\n\r\"", "[\"a\rb\", \"c\r\nd\"]", "x == \"Main St 1\r\nSpringfield\"", "{k: \"a\r\"}", "\"a\r\" + \"\rb\"", "\" \r \"", "f(\"\r\")", "\"a\\rb\"",
         "\"first\n\u{feff}second\"", "\"first\r\nsecond\u{feff}\"", "\"\u{feff}\"", "\"a\n\u{feff}\"", "[\"\u{feff}a\", \"b\r\n\u{feff}c\"]", "\"/* not a comment */\"", "\"a /* b\" + \"c */ d\"", "\"// x\n// y\"",
+        // lines that a multi-rule / front-matter / markup splitter would take for structure: they are operators, or string contents
+        "i1\n---\ni2", "i1\n----\ni2", "i1\n-\ni2", "i1\n--- \n i2", "---\ni1", "i1\n---", "a\n+\nb", "a\n|\nb", "a\n&\nb", "a\n==\nb", "a\n===\nb", "a\n...\nb", "a\n;\nb", "a\n# x\nb", "a\n***\nb",
+        "\"title\n---\nbody\"", "[\"top\n---\nbottom\", \"x\n===\ny\"]", "\"a\n\n\nb\"", "{k: \"a\n---\"}", "x == \"---\"", "\"---\" + \"\n---\n\"", "\"a\n@k: i1;\nb\"", "\"a\n# b\"",
         "[]", "{}", "[i1, i2]", "([i1])", "{low: i1, high: i10}", "[[], {}]", "[\"a\", [i1, {k: none}]]", "{a: [i1], b: {c: f1.5}}", "[true, false, none]", "{z: i1, a: i2, z: i3}"] {
         texts.push(TextCase { text: t.to_string(), tag: "rule-vs-expr" });
     }
